@@ -709,7 +709,15 @@ impl<'a> B<'a> {
                     // (e.g. `.obj + .a` after `.obj = ""` is a string): leave the default open
                     Ty::Null | Ty::Any => TV::Str(crate::model::interp::DEFAULT_MARK.to_string()),
                 };
-                E::AssignInf { ok, err, e: Box::new(f), dflt }
+                let no_vars = !matches!(ok, Target::Var(..)) && !matches!(err, Target::Var(..));
+                let ai = E::AssignInf { ok, err, e: Box::new(f), dflt };
+                // the assignment is itself an expression (value of e, or the error message); in
+                // operand position it is printed inside a block, which would scope new variables
+                if no_vars && self.c.chance(1, 2) {
+                    E::Assign(Target::Ev(vec![Seg::F("seen".into())]), Box::new(ai))
+                } else {
+                    ai
+                }
             }
             3 => self.trace_stmt(),
             4 => {
